@@ -37,6 +37,13 @@ func vxMkdir(p string) {
 		panic(vxStop{"unrealisable-dir"})
 	}
 }
+// vxSetCwd: symbolically the working directory of the FS table; natively a real chdir.
+func vxSetCwd(dir string) {
+	if err := os.Chdir(dir); err != nil {
+		panic(vxStop{"unrealisable-cwd"})
+	}
+}
+
 func vxMkSymlink(link, target string) {
 	if err := os.Symlink(target, link); err != nil {
 		panic(vxStop{"unrealisable-symlink"})
@@ -95,6 +102,7 @@ func VerifC14_Spec() {
 	vxMkdir(S + "/goroot")
 	vxMkdir(S + "/gocache")
 	n := vxParam("mounts", 2)
+	vxSetCwd("/")
 	var req []string
 	collides := false
 	type want struct{ dest, src string }
@@ -128,10 +136,11 @@ func VerifC14_Spec() {
 			wants = append(wants, want{link, target})
 		default: // a path of the sandbox's own infrastructure, or beneath it
 			// ... or an ancestor of the system locations the sandbox mounts itself
-			pool := []string{"/tmp", "/proc", "/sys", "/dev", "/app/sfw", "/gocache", "/proc/self", "/dev/null", "/usr", "/"}
+			// ... also spelled relative to the working directory "/" (added after seed C14d)
+			pool := []string{"/tmp", "/proc", "/sys", "/dev", "/app/sfw", "/gocache", "tmp", "./proc", "/proc/self", "/dev/null", "/usr", "/"}
 			k := vxPick(len(pool))
 			req = append(req, pool[k])
-			if k < 6 {
+			if k < 8 {
 				collides = true
 			} else {
 				wants = append(wants, want{pool[k], pool[k]})
